@@ -521,6 +521,12 @@ impl ISocket for DealerSocket {
     if !self.core.is_running() {
       return Err(ZmqError::InvalidState("Socket is closing".into()));
     }
+    // The rest of a message that was begun frame by frame with recv() comes first.
+    if let Some(rest) = self.frame_recv_buffer.lock().take() {
+      if !rest.is_empty() {
+        return Ok(FrameBatch::from(Vec::from(rest)));
+      }
+    }
     let rcvtimeo_opt: Option<Duration> = self.core.core_state.read().options.rcvtimeo;
     let (_, batch) = self.ingress_engine.recv_logical_message(rcvtimeo_opt).await?;
     self.process_incoming_zmtp_message_for_dealer(0, batch)
